@@ -50,15 +50,23 @@ def hashes(vals):
     import serif
     out = []
     for x in vals:
-        out.append(0x9E3779B97F4A7C15 if x is None else hash(x))
+        if isinstance(x, float) and x != x:
+            # NaN: hash(nan) is per OBJECT, so it cannot be the element hash of a content fingerprint. The value the library
+            # gives to ANOTHER NaN object is the oracle: equal contents must hash alike whichever NaN object they hold
+            out.append(serif.Vector._hash_element(float("nan")) if hasattr(serif.Vector, "_hash_element") else 0xDEADBEEFCAFEBABE)
+        else:
+            out.append(0x9E3779B97F4A7C15 if x is None else hash(x))
     return out
 
 
 def generate(rng, tier):
     # minimal witness of the known finding first (kept so that the finding is exhibited on every run)
     yield {"fam": "sens", "vals": [5, 6], "i": 0, "new": 5 - ((1 << 61) - 1), "path": "item", "other": [1, 2]}
-    pool = [1, True, 1.0, -1, -2, 0, 2, None, "a", "b", 2.5]
-    paths = ["item", "slice", "mask", "ilist", "cell", "view", "attr", "row", "ilistrep", "ilistneg"]
+    pool = [1, True, 1.0, -1, -2, 0, 2, None, "a", "b", 2.5, "F:nan"]
+    # (the key as a Vector / a tuple, the cell addressed by column name, rows chosen by a Vector mask, a whole column / table
+    # assigned from a Vector / a Table)
+    paths = ["item", "slice", "mask", "ilist", "cell", "view", "attr", "row", "ilistrep", "ilistneg",
+             "vmask", "vilist", "tuple", "cellname", "colslot", "tabslot", "alias"]
     for n in (1, 2, 3):
         for i in range(n):
             for new in pool:
@@ -68,7 +76,8 @@ def generate(rng, tier):
     for _ in range(150 if tier == "quick" else 4000):
         n = rng.randint(2, 9)
         kind = rng.choice(["int", "mixed", "str"])
-        p = {"int": [1, 0, 2, -1, -2, 3], "mixed": pool, "str": ["a", "b", "c", None]}[kind]
+        kind = kind if rng.random() < 0.85 else "floatnan"
+        p = {"int": [1, 0, 2, -1, -2, 3], "mixed": pool, "str": ["a", "b", "c", None], "floatnan": [0.5, "F:nan", 1.5, None, "F:nan"]}[kind]
         base = [rng.choice(p) for _ in range(n)]
         if rng.random() < 0.4:
             yield {"fam": "sens", "vals": base, "swap": rng.randrange(n - 1), "path": "swap", "other": [rng.choice([7, 8]) for _ in range(n)]}
@@ -321,7 +330,10 @@ def _sens(spec):
     if "long" in spec:
         lv, lnew, lother = _long_vals(spec)
         spec = dict(spec, vals=lv, new=lnew, other=lother)
-    vals = list(spec["vals"])
+    vals = H.dvs(spec["vals"])
+    spec = dict(spec, vals=vals)
+    if "new" in spec:
+        spec["new"] = H.dv(spec["new"])
     n = len(vals)
     with warnings.catch_warnings():
         warnings.simplefilter("ignore")
@@ -340,8 +352,22 @@ def _sens(spec):
                 i, new = spec["i"], spec["new"]
                 new_vals = list(vals)
                 new_vals[i] = new
-                if path in ("item", "cell", "view", "attr", "row"):
+                if path in ("item", "cell", "view", "attr", "row", "cellname"):
                     v[i] = new
+                elif path == "alias":
+                    w_ = Vector(list(vals))
+                    w_.alias("x")[i] = new                   # written through the handle alias() gives back
+                    v[i] = new
+                    if w_.fingerprint() != Vector(list(w_)).fingerprint():
+                        return {"py_fail": "judged in Python: a vector written through the handle returned by alias() has a stale fingerprint"}
+                elif path == "vmask":
+                    v[Vector([k == i for k in range(n)])] = new
+                elif path == "vilist":
+                    v[Vector([i])] = [new]
+                elif path == "tuple":
+                    v[(i,)] = [new]
+                elif path in ("colslot", "tabslot"):
+                    v[:] = Vector(list(new_vals))
                 elif path == "slice":
                     v[i:i + 1] = [new]
                 elif path == "mask":
@@ -358,6 +384,18 @@ def _sens(spec):
                     c = t.x.copy(); c[i] = new; t.x = c
                 elif path == "row":
                     t[i] = [new, spec["other"][i]]
+                elif path == "vmask":
+                    t[Vector([k == i for k in range(n)]), 0] = new
+                elif path == "vilist":
+                    t[Vector([i]), "x"] = new
+                elif path == "tuple":
+                    t[i, ("x",)] = [new]
+                elif path == "cellname":
+                    t[i, "X"] = new
+                elif path == "colslot":
+                    t[:, 0] = Vector(list(new_vals))
+                elif path == "tabslot":
+                    t[:] = Table([Vector(list(new_vals)), Vector(list(spec["other"]))])
                 else:
                     t[i, 0] = new
             va, ta = v.fingerprint(), t.fingerprint()
@@ -372,7 +410,10 @@ def _sens(spec):
 
 
 def _promoted_equal(a, b):
-    return len(a) == len(b) and all((x is None and y is None) or (x is not None and y is not None and x == y) for x, y in zip(a, b))
+    def nan(x):
+        return isinstance(x, float) and x != x
+    return len(a) == len(b) and all((x is None and y is None) or (nan(x) and nan(y)) or (x is not None and y is not None and x == y)
+                                    for x, y in zip(a, b))
 
 
 def _history(spec):
